@@ -39,7 +39,7 @@ let handle (line : string) : string =
       string_of_bytes (hexs (sen_string (html = "1") (bytes_of_hex hex)))
   | ["senread"; hex] ->
       string_of_bytes (show_read (bytes_of_hex hex))
-  | [("jppath" | "jppathb") as cmd; frags] ->
+  | [("jppath" | "jppathb" | "jppath@" | "jppath-") as cmd; frags] ->
       let fr w = match w.[0] with
         | 'c' -> NChild (bytes_of_hex (String.sub w 1 (String.length w - 1)))
         | 'w' -> NWild (w = "w*")
@@ -51,9 +51,12 @@ let handle (line : string) : string =
             NUnion (List.map mem (List.filter (fun x -> x <> "") (String.split_on_char ',' (String.sub w 1 (String.length w - 1)))))
         | _ -> NNth (z_of_string (String.sub w 1 (String.length w - 1))) in
       let fs = List.map fr (List.filter (fun x -> x <> "") (String.split_on_char ' ' frags)) in
-      string_of_bytes (hex_of_bytes ((if cmd = "jppath" then print_path else print_path_b) fs))
+      string_of_bytes (hex_of_bytes ((match cmd with "jppath" -> print_path | "jppathb" -> print_path_b
+                                      | "jppath@" -> print_path_h HAt | _ -> print_path_h HNone) fs))
   | ["jpparse"; hex] ->
       string_of_bytes (model_jpparse (bytes_of_hex hex))
+  | ["jpparseh"; hex] ->
+      string_of_bytes (model_jpparse_h (bytes_of_hex hex))
   | ["jpread"; delim; hex] ->
       string_of_bytes (model_jpread (List.hd (bytes_of_hex delim)) (bytes_of_hex hex))
   | ["write"; indent; mask; limit; data] ->
